@@ -158,3 +158,81 @@ def sweep(ctx, step=1):
                             cmds.append("M %s 127.0.0.1 cert=%s,tc=rootA - cert=a1,%s" % ("btls" if k % 2 else "tls", cred, pol))
                         ctx.count("tls.sweep")
     return cmds
+
+
+def gen_switch_history(rng, n, ctx):
+    """credential updates interleaved with connection set-up and tear-down (C18): rewrite the default directory, switch
+    XCM_TLS_CERT, per-socket overrides; established connections are pinged after every update"""
+    cmds = ["D a1 rootA -", "D a2 rootA+rootB crlA-empty dirB", "ENV default", "SRV 0 %s -" % rng.choice(["btls", "tls"])]
+    live = []      # (pair id, expected cli_sees, expected acc_sees)
+    pid = 0
+    valid = ["a1", "a2", "viaInter-chain"]
+    for _ in range(n):
+        r = rng.below(100)
+        if r < 25:
+            d = rng.choice(["default", "dirB"])
+            cmds.append("D %s %s %s%s" % (rng.choice(valid), rng.choice(["rootA", "rootA+rootB"]), rng.choice(["-", "crlA-empty"]), "" if d == "default" else " dirB"))
+            ctx.count("tls.switch.rewrite_dir")
+        elif r < 35:
+            cmds.append("ENV %s" % rng.choice(["default", "dirB"]))
+            ctx.count("tls.switch.env")
+        elif r < 45:
+            cmds.append("SRV %d %s %s" % (rng.below(2), rng.choice(["btls", "tls"]), rng.choice(["-", "-", "cert=b1,tc=rootA+rootB", "certv=a1,tcv=rootA"])))
+            ctx.count("tls.switch.new_server")
+        elif r < 80:
+            ca = rng.choice(["-", "-", "-", "cert=a2,tc=rootA+rootB", "certv=a1", "tc=rootA+rootB"])
+            aa = rng.choice(["-", "-", "-", "cert=a1", "tcv=rootA+rootB"])
+            cmds.append("CON %d %d 127.0.0.1 %s %s" % (pid % 16, rng.below(2), aa, ca))
+            live.append(pid % 16)
+            pid += 1
+            ctx.count("tls.switch.connect")
+        elif live:
+            cmds.append("PING %d" % rng.choice(live))
+        if len(live) > 12:
+            cmds.append("CLOSE %d" % live.pop(0))
+    for p in live[-6:]:
+        cmds.append("PING %d" % p)
+    return cmds
+
+
+def check_switch(ctx, cmds, model, out):
+    """CON lines: verdict + which certificate each side sees; PING lines: established connections keep working and keep
+    seeing the certificate they were established with"""
+    seen = {}
+    ctxt = []
+    for cmd, ml, il in zip(cmds, model, out):
+        w = cmd.split()
+        if w[0] in ("D", "ENV", "SRV", "CLOSESRV"):
+            ctxt.append(cmd)
+            if w[0] == "SRV" and ml != il:
+                ctx.corr_break("sys_tls", "server creation differs: %s | model %s | impl %s" % (cmd, ml, il), {"harness": "sys_tls", "ops": ctxt[-12:]})
+            continue
+        rep = {"harness": "sys_tls", "ops": ctxt[-14:] + [cmd], "model_out": ml, "impl_out": il}
+        ctx.evaluations += 1
+        if w[0] == "CON":
+            ctxt.append(cmd)
+            if ml == "no-server" or il == "no-server":
+                if ml != il:
+                    ctx.corr_break("sys_tls", "CON without server differs: %s" % cmd, rep)
+                continue
+            compare(ctx, cmd, ml, il, rep)
+            m, f = fields(ml), fields(il)
+            if m.get("client") == "accepts" and m.get("accepted") == "accepts" and f.get("client") == "ok" and f.get("accepted") == "ok":
+                cs, as_ = f["cli_sees"].split(":")[0], f["acc_sees"].split(":")[0]
+                if cs != m["cli_sees"] or as_ != m["acc_sees"]:
+                    ctx.violation("sys_tls:switch:wrong-credentials", "a new connection does not use the credentials designated at that moment: %s | expected server cert %s / client cert %s, "
+                                  "observed %s / %s" % (cmd, m["cli_sees"], m["acc_sees"], cs, as_), rep)
+                seen[int(w[1])] = (f["cli_sees"], f["acc_sees"])
+                ctx.nontriv(("switch", m["cli_sees"], m["acc_sees"]))
+            else:
+                seen.pop(int(w[1]), None)
+        elif w[0] == "PING":
+            p = int(w[1])
+            if p in seen:
+                f = fields(il)
+                if f["c2s"][0] != "1" or f["s2c"][0] != "1":
+                    ctx.violation("sys_tls:switch:established-broken", "an established connection stopped working after credential updates: %s -> %s" % (cmd, il), rep)
+                elif (f["cli_sees"], f["acc_sees"]) != seen[p]:
+                    ctx.violation("sys_tls:switch:established-changed", "an established connection's peer credentials changed: %s -> %s (was %s)" % (cmd, il, seen[p]), rep)
+        elif w[0] == "CLOSE":
+            seen.pop(int(w[1]), None)
